@@ -209,6 +209,10 @@ pub mod server_storage {
 }
 
 // ==================== Internal API (Hidden) ====================
+/// Verification-only re-exports — compiled only with the internal `__verif` feature.
+#[cfg(feature = "__verif")]
+#[doc(hidden)]
+pub mod verif_api;
 mod membership;
 mod network;
 mod utils;
